@@ -144,7 +144,12 @@ def _plain_list_receiver(fi: FunctionInfo, recv: ast.expr) -> bool:
             for t in n.targets:
                 for x in ast.walk(t):
                     if isinstance(x, ast.Name) and x.id == recv.id and isinstance(x.ctx, ast.Store):
-                        defs.append(n.value if (len(n.targets) == 1 and t is x) else None)
+                        if len(n.targets) == 1 and t is x:
+                            defs.append(n.value)
+                        elif len(n.targets) == 1 and isinstance(t, ast.Tuple) and isinstance(n.value, (ast.Tuple, ast.List)) and len(t.elts) == len(n.value.elts) and x in t.elts:
+                            defs.append(n.value.elts[t.elts.index(x)])  # a, b = [], []
+                        else:
+                            defs.append(None)
         elif isinstance(n, (ast.For, ast.comprehension, ast.With)):
             tg = n.target if not isinstance(n, ast.With) else None
             if tg is not None and any(isinstance(x, ast.Name) and x.id == recv.id for x in ast.walk(tg)):
@@ -425,7 +430,12 @@ def check_comutation_method(fi: FunctionInfo) -> List[Tuple[bool, str, ast.AST]]
                         if o[0] == "let" and o[1] == it.id:
                             src = unparse(o[2])
                 base = src[:-3] if src.endswith("[:]") else (src[5:-1] if src.startswith("list(") and src.endswith(")") else src)
-                if base in list_names:
+                if base.endswith(".keys()"):
+                    base = base[:-7]
+                # ... or the dict the list was built from (`keys = list(iterable)`; `for key in iterable`):
+                # the same elements (the loop removes at most the current one)
+                built_from = any(o[0] == "let" and o[1] in list_names and unparse(o[2]) in (f"list({base})", f"list({base}.keys())") for o in ops)
+                if base in list_names or built_from:
                     ops.append(("fact-in", item[1].target.id))
         results += _simulate(fi, ops, path)
     return results
